@@ -168,6 +168,8 @@ def expected_of(mds):
     seen = {}
     order = []
     for md in mds:
+        if md.get("metadata_type") != "inject_code":
+            continue          # metadata of another kind travelling with the blocks (same name or not) is none of their business
         info = {k: v for k, v in md.items() if k != "metadata_type"}
         if not info:
             continue
@@ -336,6 +338,16 @@ def build_cases(tier):
             cid += 1
             cases.append((cid, [b1, b1x], pos, backend))      # same name, different content: an error wherever the copies sit
             cid += 1
+    # an inject_code block that shares its NAME with metadata of another kind (a tool's job script, its C++ helper): still one legal block
+    for backend in ("atlas", "cms_aod", "cms_miniaod"):
+        blk = block_md("vtx_tool", {"body_includes": ["tools/Vtx.h"]} if backend != "atlas" else {"body_includes": ["tools/Vtx.h"], "private_members": ["int m_vtx;"], "ctor_lines": ["m_vtx = 1;"], "link_libraries": ["VtxLib"]})
+        others = [{"metadata_type": "add_cpp_function", "name": "vtx_tool", "include_files": [], "arguments": ["x"], "code": ["double result = x;"], "return_type": "double"}]
+        if backend == "atlas":
+            others.append({"metadata_type": "add_job_script", "name": "vtx_tool", "script": ["# vtx tool"], "depends_on": []})
+        for other in others:
+            for mds_, pos in (([blk, other], (0, 0)), ([other, blk], (0, 0)), ([blk, other], (0, 1)), ([other, blk], (0, 1)), ([blk, other], (1, 0)), ([blk, other, blk], (0, 0, 1))):
+                cases.append((cid, mds_, pos, backend))
+                cid += 1
     # several blocks: menu of relations, all orders, all placements
     def menu(k):
         f1 = FIELDS[k % len(FIELDS)]
